@@ -41,7 +41,7 @@ def fnv64 (b : Bytes) : Nat :=
 /-- canonical rendering of a byte string: hex when short, `#len.hash` when long -/
 def hexOfN (limit : Nat) (b : Bytes) : String :=
   if b.length ≤ limit then Bytes.toHex b else s!"#{b.length}.{fnv64 b}"
-def hexOf (b : Bytes) : String := hexOfN 24 b
+def hexOf (b : Bytes) : String := hexOfN 48 b
 def unhex (s : String) : Bytes := (Bytes.ofHex s).getD []
 
 def opName : Op → String
@@ -253,6 +253,9 @@ def step (st : St) (line : String) : St × List String :=
     -- what remains is only meaningful when the connection survives
     let restLen := if perrStr pr.err == "fatal" then 0 else pr.rest.length
     (st, [s!"{perrStr pr.err} {c} rest={restLen} alloc={pr.alloc}"])
+  | "dump" :: "S" :: keys =>
+    -- the specification's single map (as advanced by the `oracle` commands)
+    (st, ["dump S " ++ " ".intercalate (keys.map fun k => s!"{k}={itemStr (st.spec.look st.now (unhex k))}")])
   | "dump" :: tier :: keys =>
     let t := tierOf tier
     let s := st.run.w.get t
